@@ -116,4 +116,60 @@ theorem metricsOk_stream (s : List Char) (h : metricsOk s = true) : IsStream s :
     · rename_i ops hf
       exact loop_some_stream _ s ops hf
 
+/-! ## Accepted ⇒ applied -/
+
+/-- **Validation is sound for application**: an operation `ValidateMetricOperation` accepts has a
+branch WITH AN EFFECT in `sendBatchV0` / `applyGroupOperations` — it is neither an error of the
+ungrouped path (the validation would have had to report it) nor dropped silently by the grouped
+loop. This is the statement a validation table with an action nobody applies falsifies. -/
+theorem validOp_applied (op : MetricOp) (h : validOp op = true) : applyOp op = .effect := by
+  unfold validOp at h
+  unfold applyOp
+  simp only [bne] at h
+  cases hg : (op.group == ([] : List Char)) <;> cases hs : (op.action == "set".toList) <;>
+    cases ha : (op.action == "add".toList) <;> cases ho : (op.action == "observe".toList) <;>
+    cases he : (op.action == "expire".toList) <;> cases hv : op.value <;> cases hb : op.buckets <;>
+    cases hS : op.set <;> cases hA : op.add <;> simp_all <;> grind
+
+/-- An accepted operation other than an expire has a name (the series it is applied to). -/
+theorem validOp_named (op : MetricOp) (h : validOp op = true) (hx : op.action ≠ "expire".toList) :
+    op.name ≠ [] := by
+  unfold validOp at h
+  simp only [bne] at h
+  intro hn
+  have he : (op.action == "expire".toList) = false := by simpa using hx
+  cases hg : (op.group == ([] : List Char)) <;> simp_all
+
+/-- A file with an operation that has no effect (error or silently dropped) is not accepted. -/
+theorem metricsOk_all_applied (s : List Char) (hne : s ≠ []) (h : metricsOk s = true) :
+    ∃ ops, fromReader s = some ops ∧ ∀ op ∈ ops, applyOp op = .effect := by
+  unfold metricsOk at h
+  have he : s.isEmpty = false := by cases s <;> simp_all
+  rw [he] at h
+  simp only [Bool.false_eq_true, if_false] at h
+  cases hf : fromReader s with
+  | none => rw [hf] at h; cases h
+  | some ops =>
+    rw [hf] at h
+    refine ⟨ops, rfl, fun op hop => validOp_applied op ?_⟩
+    exact (List.all_eq_true.mp h) op hop
+
+/-- The contrapositive, as the property states it: output that cannot be applied ⇒ not accepted. -/
+theorem unapplied_not_ok (s : List Char) (ops : List MetricOp) (hf : fromReader s = some ops)
+    (op : MetricOp) (hop : op ∈ ops) (hn : applyOp op ≠ .effect) : metricsOk s = false := by
+  cases hm : metricsOk s with
+  | false => rfl
+  | true =>
+    have hne : s ≠ [] := by
+      intro h0
+      subst h0
+      have : fromReader [] = some [] := by decide
+      rw [this] at hf
+      cases hf
+      cases hop
+    obtain ⟨ops', hf', hall⟩ := metricsOk_all_applied s hne hm
+    rw [hf] at hf'
+    cases hf'
+    exact absurd (hall op hop) hn
+
 end ShellOp.HookOutput
